@@ -306,42 +306,42 @@ JUDGE = {"c03": "judge_pws_c03", "c04": "judge_pws_c04", "c06": "judge_pws_c06"}
 def op_term(o):
     k = o["op"]
     if k == "gpush":
-        return "GPush %s" % gz(o["x"])
+        return "PWS.GPush %s" % gz(o["x"])
     if k == "gpop":
-        return "GPop"
+        return "PWS.GPop"
     if k == "glen":
-        return "GLen"
+        return "PWS.GLen"
     if k == "gempty":
-        return "GEmpty"
+        return "PWS.GEmpty"
     if k == "new":
-        return "NewHandle"
+        return "PWS.NewHandle"
     if k == "lpush":
-        return "LPush %d %s" % (o["h"], gz(o["x"]))
+        return "PWS.LPush %d %s" % (o["h"], gz(o["x"]))
     if k == "lpop":
-        return "LPop %d %d" % (o["h"], o["start"])
+        return "PWS.LPop %d %d" % (o["h"], o["start"])
     if k == "llen":
-        return "LLen %d" % o["h"]
+        return "PWS.LLen %d" % o["h"]
     if k == "lfull":
-        return "LFull %d" % o["h"]
+        return "PWS.LFull %d" % o["h"]
     if k == "lempty":
-        return "LEmpty %d" % o["h"]
+        return "PWS.LEmpty %d" % o["h"]
     raise ValueError(k)
 
 
 def obs_term(v):
     if v == "unit":
-        return "OUnit"
+        return "PWS.OUnit"
     if v == "bad":
-        return "OBad"
+        return "PWS.OBad"
     if v == "diverged":
-        return "ODiverged"
+        return "PWS.ODiverged"
     if isinstance(v, dict) and "item" in v:
-        return "OItem None" if v["item"] is None else "OItem (Some %s)" % gz(v["item"])
+        return "PWS.OItem None" if v["item"] is None else "PWS.OItem (Some %s)" % gz(v["item"])
     if isinstance(v, dict) and "num" in v:
-        return "ONum %s" % gz(v["num"])
+        return "PWS.ONum %s" % gz(v["num"])
     if isinstance(v, dict) and "bool" in v:
-        return "OBool true" if v["bool"] else "OBool false"
-    return "OBad"  # aborted:<sig>, harness-lost ... : never equal to a model observation of a wf op
+        return "PWS.OBool true" if v["bool"] else "PWS.OBool false"
+    return "PWS.OBad"  # aborted:<sig>, harness-lost ... : never equal to a model observation of a wf op
 
 
 def term(case, obs):
